@@ -72,6 +72,17 @@ def nested_stage(chk, pid, tier, seed, names, check_c07):
         feats = {"groups": True, "initial": rng.random() < 0.5}
         m = G.gen_model(rng, "small", feats)
         cases.append({"id": str(i), "model": m, "ops": G.gen_ops(rng, m, 25, "unchecked")})
+    # short histories: a few plans, then ONE un-plan of a member / a group / a vehicle, then one more plan - so that the
+    # first nested event of a history is as varied as possible (later events of a history are tainted, N5)
+    for i in range(n):
+        feats = {"groups": True, "initial": rng.random() < 0.2}
+        m = G.gen_model(rng, "small", feats)
+        plan = lambda: G.gen_ops(rng, m, 1, "plan_only")[0]  # noqa: E731
+        ops = [plan() for _ in range(rng.randint(2, 6))]
+        ops.append(rng.choice(["op munplanr %d", "op munplanr %d", "op unplanr %d", "op vunplanr %d"]) % rng.randrange(1 << 20))
+        ops += [plan(), "op snapall"]
+        cases.append({"id": "s%d" % i, "model": m, "ops": ops})
+    n = len(cases)
     res, st = E.run_cases(cases, "%s_nested_%s" % (pid.lower(), tier), timeout=3000)
     bad = [r for r in res if r["diff"]]
     chk.ob("nested units (stop groups, initial/fixed stops): %d histories identical to Model/Units.v" % n, not bad and st[0] == 0 and st[2] == 0,
